@@ -159,6 +159,7 @@ func VerifyFunc(w *World, rel string, c *Contract, fn *ssa.Function) *FuncReport
 				}
 			}
 		}
+		x.ginv = x.protocolFor(c, fn, args)
 		fi := x.pushFrame(st, fn, args, bind, c, ret, pan)
 		// requires
 		env := x.envFor(st, fi, false)
@@ -166,6 +167,9 @@ func VerifyFunc(w *World, rel string, c *Contract, fn *ssa.Function) *FuncReport
 			if t, ok := x.evalClause(st, env, rq); ok {
 				st.assume(t)
 			}
+		}
+		if x.ginv != nil && !c.Constructs {
+			x.ginvAssume(st, fi)
 		}
 		if len(c.Requires) > 0 {
 			x.reach(st, "entry")
@@ -338,6 +342,9 @@ func (x *Exec) checkFrame(st *State, c *Contract, fn *ssa.Function, args []Value
 			continue // ghost variable / scalar named in the clause
 		}
 		if !strings.HasPrefix(sortS, "(Array Ref") {
+			if _, shared := st.lockHavoc[name]; shared {
+				continue // shared ghost state of a protocol: other threads change it
+			}
 			x.oblige(st, "frame", name, where, Eq(cur, was), fn.Pos())
 			continue
 		}
@@ -375,6 +382,9 @@ func Discharge(obls []*Obligation, timeoutS int, confirm bool, workers int) {
 		go func() {
 			defer wg.Done()
 			for ob := range ch {
+				if ob.Query == "" && ob.Result.Status != "" {
+					continue // decided without a solver (syntactic scan)
+				}
 				if ob.Expect == "sat" {
 					// reachability (vacuity guard): only a refutation is a failure
 					r := runOne(solverSpecs[0], "(set-option :smt.mbqi false)\n"+ob.Query, 3)
